@@ -6,7 +6,7 @@ import hashlib
 import os
 from dataclasses import dataclass, field
 from pathlib import Path
-from typing import Dict, Iterable, Iterator, List, Optional, Tuple
+from typing import Dict, Iterable, Iterator, List, Optional, Set, Tuple
 
 
 class AnalysisError(Exception):
@@ -213,6 +213,8 @@ class Model:
     modules: Dict[str, Module] = field(default_factory=dict)
     parse_errors: List[str] = field(default_factory=list)
     normalisation: Dict[str, object] = field(default_factory=dict)
+    deletion_only: Set[str] = field(default_factory=set)  # functions that differ from the reference only by removed statements (and whose module got no new function)
+    drift: Dict[str, Optional[int]] = field(default_factory=dict)  # statement-skeleton distance of each function from the reference tree (None: new function)
 
     def mod(self, name: str) -> Module:
         m = self.modules.get(name)
@@ -342,6 +344,23 @@ def load_model(repo: str | os.PathLike = "/repo", normalize: bool = True) -> Mod
         for p, text, tree in parsed:
             nz.module(p.stem, tree)
         nz.fix_keywords({p.stem: tree for p, _, tree in parsed})
+        from .normalize import functions as _nz_functions, skeleton as _nz_skeleton, skeleton_drift as _nz_drift, skeleton_deletion_only as _nz_del, text_skeleton as _nz_tsk
+        drift = {}
+        del_only = set()
+        new_in_module = {}
+        for p, text, tree in parsed:
+            for qn, fn in _nz_functions(tree):
+                ref = nz.ref.get(f"{p.stem}:{qn}")
+                if ref and "skeleton" in ref:
+                    sk = _nz_skeleton(fn)
+                    drift[f"{p.stem}.{qn}"] = _nz_drift(sk, ref["skeleton"])
+                    if "text_skeleton" in ref and _nz_del(_nz_tsk(fn), ref["text_skeleton"]):
+                        del_only.add(f"{p.stem}.{qn}")
+                else:
+                    drift[f"{p.stem}.{qn}"] = None
+                    new_in_module[p.stem] = new_in_module.get(p.stem, 0) + 1
+        model.drift = drift
+        model.deletion_only = {k for k in del_only if not new_in_module.get(k.split(".")[0])}
         model.normalisation = {"renamed": nz.renamed, "temp_returns_inlined": nz.inlined, "log_statements_dropped": nz.log_stmts, "negated_ifs_unflipped": nz.unflipped, "annotated_local_assignments_made_plain": nz.annotated, "new_single_use_temporaries_inlined": nz.temps}
     for p, text, tree in parsed:
         mod = Module(p.stem, p, str(p.relative_to(repo)), text, tree)
